@@ -208,6 +208,41 @@ fn zero_for_empty_string(v: &Value) -> Value {
 
 pub struct C16;
 
+/// every `$ref` (and discriminator mapping target) replaced by a placeholder
+fn ref_blind(v: &Value) -> Value {
+    match v {
+        Value::Object(m) => {
+            let mut o = serde_json::Map::new();
+            for (k, x) in m {
+                if k == "$ref" && x.is_string() {
+                    o.insert(k.clone(), json!("*"));
+                } else if k == "mapping" && x.is_object() {
+                    o.insert(k.clone(), Value::Object(x.as_object().unwrap().iter().map(|(mk, _)| (mk.clone(), json!("*"))).collect()));
+                } else {
+                    o.insert(k.clone(), ref_blind(x));
+                }
+            }
+            Value::Object(o)
+        }
+        Value::Array(a) => Value::Array(a.iter().map(ref_blind).collect()),
+        other => other.clone(),
+    }
+}
+
+/// `more` of a raw C16 difference: do the two sides differ in nothing but the names their references point to?
+fn differs_in_ref_targets_only(more: &Value, cfg: &CtxCfg) -> bool {
+    if more.get("fresh").is_some() && more.get("shared").is_some() {
+        return ref_blind(&more["fresh"]) == ref_blind(&more["shared"]);
+    }
+    if let (Some(a), Some(b), Some(which)) = (defs_of(&more["export_h1"], cfg), defs_of(&more["export_h2"], cfg), more["differing"].as_array()) {
+        return which.iter().filter_map(|k| k.as_str()).all(|k| match (a.get(k), b.get(k)) {
+            (Some(x), Some(y)) => ref_blind(x) == ref_blind(y),
+            _ => false,
+        });
+    }
+    false
+}
+
 impl Check for C16 {
     fn id(&self) -> &'static str {
         "C16"
@@ -234,7 +269,10 @@ impl Check for C16 {
         vec![("loaded", 0.5), ("shared_definition", 0.3), ("has_recursion", 0.05), ("multi_parser_history", 0.5)]
     }
     fn generate(&self, s: &mut Src, _tier: Tier) -> Value {
-        let cfg = GenCfg { non_json: false, max_defs: 4, object_bias: 2, ..GenCfg::default() };
+        // a quarter of the programs contain types JSON Schema cannot express (Date, bigint, Map, ...): printing them
+        // throws, and what a context holds after a refused print is part of the history
+        let non_json = s.chance(1, 4);
+        let cfg = GenCfg { non_json, max_defs: 4, object_bias: 2, ..GenCfg::default() };
         let n_roots = s.range(2, 4);
         let (env, roots) = gen_env_and_roots(s, &cfg, n_roots);
         let mut roots: Vec<(String, D)> = roots.into_iter().enumerate().map(|(i, d)| (format!("P{}", i), d)).collect();
@@ -325,10 +363,41 @@ impl Check for C16 {
             }
             let threw = r["returned"].as_array().map(|a| a.iter().any(|x| x.get("threw").is_some())).unwrap_or(true) || r["exported"].get("threw").is_some();
             if threw {
-                // `any` re-materialised through Exclude makes printing throw (listed under C02); not an order question
+                // `any` re-materialised through Exclude makes printing throw (listed under C02); whether a parser is
+                // refused is not an order question - but it must not become one: a call is refused in a history exactly
+                // when the parser is refused alone in a fresh context, and what the refused print left behind must not
+                // show in later calls (the checks below run over the calls that returned)
                 out.label("printing_threw");
-                let _ = hn;
-                return out;
+                if r["exported"].get("threw").is_some() {
+                    return out;
+                }
+                let calls = if hn == "h1" { &case.h1 } else { &case.h2 };
+                for (ci, c) in calls.iter().enumerate() {
+                    if c.starts_with('#') {
+                        continue;
+                    }
+                    let pi = match set.iter().position(|p| p == c) {
+                        Some(pi) => pi,
+                        None => continue,
+                    };
+                    let fresh_threw = resp["results"][2 + pi]["returned"][0].get("threw").is_some();
+                    let here_threw = r["returned"][ci].get("threw").is_some();
+                    if fresh_threw != here_threw {
+                        out.mismatch(
+                            ctx,
+                            "c16_refusal_depends_on_history",
+                            format!(
+                                "call #{} of {} in history {} {} although the same parser printed alone into a fresh context {}",
+                                ci,
+                                c,
+                                hn,
+                                if here_threw { "is refused (throws)" } else { "returns a schema" },
+                                if fresh_threw { "is refused (throws)" } else { "returns a schema" }
+                            ),
+                            detail(json!({"history": hn, "call": ci, "parser": c, "returned": r["returned"][ci], "fresh": resp["results"][2 + pi]["returned"][0]})),
+                        );
+                    }
+                }
             }
         }
         out.evals += 1;
@@ -431,7 +500,8 @@ impl Check for C16 {
                     ));
                 }
                 // what the schema says (references inlined) must not depend on the history either
-                if c == p && sem_equal {
+                // (a call that is refused in the history - the refusal itself is judged above - has nothing to inline)
+                if c == p && sem_equal && r1["returned"][ci].get("threw").is_none() {
                     let a = canon_of(&r1["returned"][ci]["r"], e1, &case.cfg);
                     let b = canon_of(&rf["returned"][0]["r"], &rf["exported"]["r"], &case.cfg);
                     if a.is_none() || b.is_none() || a != b {
@@ -446,7 +516,10 @@ impl Check for C16 {
         // the same for the second history
         for (pi, p) in set.iter().enumerate() {
             let rf = &resp["results"][2 + pi];
-            if let Some(ci) = case.h2.iter().position(|c| c == p) {
+            if rf["returned"][0].get("threw").is_some() {
+                continue;
+            }
+            if let Some(ci) = case.h2.iter().position(|c| c == p && r2["returned"][case.h2.iter().position(|x| x == c).unwrap_or(0)].get("threw").is_none()) {
                 let a = canon_of(&r2["returned"][ci]["r"], e2, &case.cfg);
                 let b = canon_of(&rf["returned"][0]["r"], &rf["exported"]["r"], &case.cfg);
                 if a.is_none() || b.is_none() || a != b {
@@ -464,6 +537,13 @@ impl Check for C16 {
             if sem_equal && has_synth && raw.iter().all(|r| r.3) {
                 let (_, what, det, _) = raw.remove(0);
                 out.mismatch(ctx, "c16_synthetic_variant_definition_spelling", format!("{} [same meaning with references inlined; synthetic Discriminated* definitions keep the first spelling]", what), det);
+            } else if !case.overrides.is_empty() && has_synth && raw.iter().all(|r| r.3 && differs_in_ref_targets_only(&r.2["more"], &case.cfg)) {
+                // the same first-spelling-wins root cause, met together with namedTypeSchemaOverrides: the two spellings of one
+                // union reach a structurally equal member through different alias names, one of which is overridden, so the
+                // spelling that was kept now also decides the meaning.  Decided: only synthetic definitions differ, and they
+                // differ in nothing but the names their $refs point to.
+                let (_, what, det, _) = raw.remove(0);
+                out.mismatch(ctx, "c16_synthetic_variant_definition_spelling:ref_targets_under_override", format!("{} [synthetic Discriminated* definitions keep the first spelling; the spellings differ only in which alias a $ref names, and an override is in force]", what), det);
             } else {
                 for (sig, what, det, _) in raw.drain(..) {
                     out.mismatch(ctx, &sig, what, det);
